@@ -5,7 +5,7 @@
 From Coq Require Import ZArith NArith List Bool Lia.
 From GV Require Import Table.ModelValue Table.Spec Table.ValueProofs.
 Import ListNotations.
-Open Scope Z_scope.
+Local Open Scope Z_scope.
 
 Definition fe (b : N) : Z := Z.of_N (f_exp b).
 Definition fm (b : N) : Z := Z.of_N (f_man b).
